@@ -39,7 +39,6 @@ import (
 	"crypto/tls"
 	"encoding/json"
 	"fmt"
-	"io"
 	"log"
 	"os"
 	"path/filepath"
@@ -179,6 +178,11 @@ func (g *gates) open() {
 		close(p.ch)
 	}
 }
+
+// formattingSink is an io.Writer that is not io.Discard (log.Logger skips formatting for io.Discard).
+type formattingSink struct{}
+
+func (formattingSink) Write(p []byte) (int, error) { return len(p), nil }
 
 // ---- environment behind the fake fsnotify ---------------------------------------
 
@@ -456,8 +460,10 @@ func runOne(t *testing.T, h history, c *mc.Chooser, o runOpts) (out mc.Outcome) 
 		defer vhook.SetHandler(nil)
 		vfs.SetBackend(e)
 		defer vfs.SetBackend(nil)
-		certwatcher.Logger = log.New(io.Discard, "", 0)
-		certwatcher.VerboseLogs = false
+		// the binary's -verbose switch for half of the histories (by the parity of the history's text, so that a history
+		// always runs the same way): it may only add log lines. The logger formats what it is given.
+		certwatcher.Logger = log.New(formattingSink{}, "", 0)
+		certwatcher.VerboseLogs = len(h.String())%2 == 0
 
 		cw, err := certwatcher.New(disk.Path(certenv.Cert), disk.Path(certenv.Key))
 		if err != nil || cw == nil {
@@ -1241,6 +1247,9 @@ func TestCheck(t *testing.T) {
 
 	// Part C: error reports from fsnotify between updates
 	errorReports(t, rep, mat, tmp, shard, of)
+
+	// Part D: updates that change only the rest of the certificate file
+	chainUpdates(t, rep, tmp, shard, of)
 
 	// Part B: exploration
 	st := &stats{feat: map[string]struct{}{}}
